@@ -112,3 +112,16 @@ M("C04-isnonneg-subtract", "C04", "R4.7", ("expr.py", "            if x._is_nonn
 N("C04-neutral-row-none", "C04", (RW, '    ("positive", "nonpositive"): (True, True, False, False, False, True),', '    ("positive", "nonpositive"): (True, None, None, False, None, None),'))
 N("C04-neutral-dead-row", "C04", (RW, '    ("smallest", "positive"): (None, False, True, None, None, None),', '    ("smallest", "positive"): (True, True, False, False, False, True),'))
 N("C04-neutral-comment", "C04", (RW, "            # ! (x > y) -> x <= y\n", "            # not (x > y) is x <= y\n"))
+
+# ----------------------------------------------------------------------------- C03
+AL = "algorithms.py"
+M("C03-asin-sign-select", "C03", "R3.1", (AL, "    imag = ctx.select(signed_y < zero, -w_imag, w_imag)", "    imag = ctx.select(signed_x < zero, -w_imag, w_imag)"))
+M("C03-asinh-real-branch", "C03", "R3.3", (AL, "    real = ctx.select(signed_x < 0, -w.imag, w.imag)\n    imag = ctx.atan2(signed_y, w.real)", "    real = ctx.select(signed_x < 0, w.imag, -w.imag)\n    imag = ctx.atan2(signed_y, w.real)"))
+M("C03-asinh-atan2-swapped", "C03", "R3.3", (AL, "    real = ctx.select(signed_x < 0, -w.imag, w.imag)\n    imag = ctx.atan2(signed_y, w.real)", "    real = ctx.select(signed_x < 0, -w.imag, w.imag)\n    imag = ctx.atan2(w.real, signed_y)"))
+M("C03-acos-sign", "C03", "R3.3", (AL, "    imag = ctx.select(signed_y < 0, w.imag, -w.imag)", "    imag = ctx.select(signed_y <= 0, w.imag, -w.imag)"))
+M("C03-acosh-sign-lost", "C03", "R3.3", (AL, "    return ctx(ctx.complex(w.imag, ctx.select(signed_y < 0, -imag, imag)))", "    return ctx(ctx.complex(w.imag, ctx.select(signed_y < 0, imag, imag)))"))
+M("C03-atan-seed", "C03", "R3.3", (AL, "    w = ctx.atanh(ctx.complex(-z.imag, z.real))\n    return ctx(ctx.complex(w.imag, -w.real))", "    w = ctx.atanh(ctx.complex(z.imag, z.real))\n    return ctx(ctx.complex(w.imag, w.real))"))
+M("C03-atan-drop-minus", "C03", "R3.3", (AL, "    w = ctx.atanh(ctx.complex(-z.imag, z.real))\n    return ctx(ctx.complex(w.imag, -w.real))", "    w = ctx.atanh(ctx.complex(-z.imag, z.real))\n    return ctx(ctx.complex(w.imag, w.real))"))
+M("C03-square-real-odd", "C03", "R3.2", (AL, "    return ctx(x * x)", "    return ctx(x * abs(x))"))
+N("C03-neutral-commute", "C03", (AL, "    real = ctx.select(signed_x < 0, -w.imag, w.imag)\n    imag = ctx.atan2(signed_y, w.real)", "    real = ctx.select(0 > signed_x, -w.imag, w.imag)\n    imag = ctx.atan2(signed_y, w.real)"))
+N("C03-neutral-select-flip", "C03", (AL, "    imag = ctx.select(signed_y < 0, w.imag, -w.imag)", "    imag = ctx.select(signed_y >= 0, -w.imag, w.imag)"))
